@@ -1,9 +1,10 @@
 #!/bin/sh
 # Build the native witness-search program against /repo's current working tree (hooks on).
 set -e
-cd "$(dirname "$0")/../replay"
+ROOT="$(cd "$(dirname "$0")/.." && pwd)"
+cd "$ROOT/replay"
 cp /repo/Cargo.lock Cargo.lock
 export CARGO_NET_OFFLINE=true
-export CARGO_TARGET_DIR=/verif/build/replay-target
+export CARGO_TARGET_DIR="$ROOT/build/replay-target"
 export RUSTFLAGS="--cfg kmertools_verif -Awarnings"
 exec cargo build --release --offline "$@"
